@@ -49,6 +49,8 @@ MENU = [
     ('T2', 'cls', 'default', 'default', 'default', 0.5),
     ('T1', 'cls', 'is1', 'raises', 'default', 0.5),
     ('T2', 'str', 'is1', 'default', 'default', None),
+    ('T1', 'cls', 'is1', 'default', 'default', None),   # 8: same type/timeout as 0, different filter
+    ('T1', 'str', 'default', 'is1', 'default', 0.5),   # 9: same type/timeout as 1, complementary filter
 ]
 
 
@@ -106,6 +108,15 @@ class ExpectWorld:
             self._probe = probe
             bus.on(T1, probe)  # type-specific and registered first: runs ahead of every temporary expect handler
             bus.on('T2', probe)
+            if sp.get('slow'):
+                # an ordinary slow handler of T1, registered before any expect(): a call can time out / be cancelled while an event
+                # whose handlers were already selected is still being processed
+                async def slow(e):
+                    await self.loop.pause('slow')
+                    self.rec('slow-done', e.name)
+                    return 's'
+                self._slow = slow
+                bus.on(T1, slow)
             self.rec('table0', self.table())
             tasks = []
             early = [i for i, c in enumerate(sp['calls']) if sp['start'][i] == 0]
@@ -156,7 +167,7 @@ class ExpectWorld:
 
     def result(self, verdict):
         log = list(self.log)
-        fin = {nm: (e.event_status, [(r.handler_name.rsplit('.', 1)[-1][:12], r.status) for r in e.event_results.values()]) for nm, e in self.events.items()}
+        fin = {nm: (e.event_status, [(r.handler_name.rsplit('.', 1)[-1][:12], r.status, type(r.error).__name__ if r.error is not None else None) for r in e.event_results.values()]) for nm, e in self.events.items()}
         return dict(log=log, verdict=verdict, phase=self.phase, final=fin, trace_key=(tuple(r[2:] for r in log), verdict[0]))
 
     def teardown(self):
@@ -177,7 +188,7 @@ def families(tier):
     streams = []
     for n in range(1, (4 if deep else 3) + 1):
         streams += list(itertools.product(letters, repeat=n))
-    call_sets = [(i,) for i in range(len(MENU))] + [(0, 1), (1, 2), (3, 4), (0, 5), (2, 6), (1, 7), (4, 0)]
+    call_sets = [(i,) for i in range(8)] + [(0, 1), (1, 2), (3, 4), (0, 5), (2, 6), (1, 7), (4, 0), (0, 8), (8, 0), (1, 9), (9, 1)]
     for stream in streams:
         for calls in call_sets:
             if not deep and len(calls) == 2 and len(stream) > 2:
@@ -187,10 +198,13 @@ def families(tier):
                     continue
                 if not deep and len(calls) == 2 and (start in ((1, 1), (1, 0)) or cancel == 0):
                     continue
-                if not deep and len(stream) == 3 and (start[0] == 1 or cancel is not None) and stream[1] != ('T1', 1):
+                if not deep and len(stream) == 3 and (start[0] == 1 or cancel is not None or calls[0] not in (0, 1, 2, 3) or stream[0][0] == 'T2'):
                     continue
                 sid = f'{"".join(t[1] + str(v) for t, v in stream)}-c{"_".join(map(str, calls))}-s{"".join(map(str, start))}-x{cancel}'
                 out.append(dict(prop='C18', family='c18.expect', id='c18/' + sid, cfg=cfg, x=dict(stream=list(stream), calls=list(calls), start=list(start), cancel=cancel)))
+                if len(stream) <= 2 and (deep or (len(calls) == 1 and calls[0] in (0, 1, 2, 4) and start[0] == 0)) and any(t == 'T1' for t, _ in stream):
+                    out.append(dict(prop='C18', family='c18.expect_slow_handler', id='c18/slow-' + sid, cfg=cfg,
+                                    x=dict(stream=list(stream), calls=list(calls), start=list(start), cancel=cancel, slow=True)))
     return out
 
 
@@ -255,6 +269,10 @@ def oracle(spec, res):
         cancels = [r for r in log if r[2] == 'cancel' and r[3] == i and b[0] < r[0] < e[0]]
         deadline = None if tmo is None else b[1] + tmo
         cands = [r for r in log if r[2] == 'processed' and r[4] == typ and r[0] > b[0] and r[0] < e[0]]
+        if sp.get('slow') and typ == 'T1':
+            # the temporary handler's turn comes after the slow handler of the same event: use that instant
+            done = {r[3]: r for r in log if r[2] == 'slow-done'}
+            cands = [(done[r[3]][0], done[r[3]][1], 'processed', r[3], r[4], r[5]) for r in cands if r[3] in done and done[r[3]][0] < e[0]]
         matches = [r for r in cands if _passes(cfgm, r[5])]
         first = matches[0] if matches else None
         tagd = dict(outcome=kind, filters='+'.join(cfgm[2:5]))
@@ -295,4 +313,8 @@ def oracle(spec, res):
         st = res['final'].get(nm)
         if st and st[0] != 'completed':
             out.append(V('other_handlers_affected', f'{nm} ended {st}'))
+        # a finished expect() must not leave anything behind on events: the only error results allowed are those of a raising filter (KeyError)
+        for hn, status, et in (st[1] if st else []):
+            if status == 'error' and et != 'KeyError':
+                out.append(V('expect_left_an_error_result_on_an_event', f'{nm}: handler {hn} -> {et}'))
     return out[:6]
